@@ -577,12 +577,26 @@ func runHist(in []string) []string {
 	var st storage.Store
 	var err error
 	var dir string
+	// store field: mem|file[.c<cap>][.m<maxkb>]  (per-mailbox cap; store-wide size limit, memory store only)
+	sf := strings.Split(storeKind, ".")
+	storeKind = sf[0]
+	scfg := config.Storage{Params: map[string]string{}}
+	for _, o := range sf[1:] {
+		switch o[0] {
+		case 'c':
+			scfg.MailboxMsgCap = vh.AtoI(o[1:])
+		case 'm':
+			scfg.Params["maxkb"] = o[1:]
+		}
+	}
 	if storeKind == "file" {
 		dir = filepath.Join(workdir(), fmt.Sprintf("c14-%d-%d", os.Getpid(), caseNo))
-		st, err = file.New(config.Storage{Params: map[string]string{"path": dir}}, extHost)
+		scfg.Params["path"] = dir
+		delete(scfg.Params, "maxkb")
+		st, err = file.New(scfg, extHost)
 		defer os.RemoveAll(dir)
 	} else {
-		st, err = mem.New(config.Storage{Params: map[string]string{}}, extHost)
+		st, err = mem.New(scfg, extHost)
 	}
 	if err != nil {
 		return []string{"STOREERR", vh.HS(err.Error())}
